@@ -38,7 +38,7 @@ def run(ctx):
     def one_gen(cfg, tag):
         d = vlib.copy_specs(ctx, "mkvs")
         out = ctx.path("wlog-%s.json" % tag)
-        vh = vlib.popen_vh(["wlog-replay", "-in", "-", "-out", out, "-maxaccept", "1" if q else "1000"])
+        vh = vlib.popen_vh(["wlog-replay", "-in", "-", "-out", out, "-maxaccept", "1" if q else "1000", "-convevery", "4" if q else "64"])
 
         def sink(line):
             if len(keep) < 400:
